@@ -284,6 +284,12 @@ def run_harness(h, cfile, workdir, cfg, tier='quick'):
         res['status'] = 'error'
         res['detail'] = 'the lowered code calls functions for which /verif/specs has no model: %s' % undefined
         return res
+    limits = sorted(set(f['description'] for f in res['failed'] if 'MODEL-LIMIT' in (f['description'] or '')))
+    if limits:
+        # the changed code uses a library operation in a way the model in /verif/specs does not cover: no verdict
+        res['status'] = 'error'
+        res['detail'] = 'outside the library models: %s' % '; '.join(limits)
+        return res
     # second pass: counterexample traces for (at most three) failed obligations only
     if res['failed'] and os.environ.get('VERIF_NO_TRACE') != '1':
         for f in res['failed'][:3]:
